@@ -375,6 +375,19 @@ func Replay(sc *Scenario, schedule []int) (*Violation, string, error) {
 		}
 	}
 	e2 := runOnce(sc, schedule, nil, true)
+	if PostExec != nil && pv == nil {
+		// the detector keeps a bounded, randomly evicted access history per memory cell: whether one run of the schedule
+		// trips a given pair is not certain, so the schedule is repeated a few times (a pair is reported once per process)
+		if l := PostExec(e2); len(l) > 0 {
+			pv = l[0]
+		}
+		for i := 0; i < 40 && pv == nil; i++ {
+			ex := runOnce(sc, schedule, nil, false)
+			if l := PostExec(ex); len(l) > 0 {
+				pv = l[0]
+			}
+		}
+	}
 	if e1.Outcome == vrt.Diverged {
 		return nil, "", fmt.Errorf("replay diverged: %s", e1.DivergeMsg)
 	}
